@@ -356,12 +356,29 @@ def r5_all_children_pushed(ctx, rule):
                         pushes_all = True
             if any(isinstance(s, (ast.Break, ast.Return, ast.Continue, ast.If)) for s in walk_stmts(n.body)):
                 pushes_all = False
+    push_unconditional(ctx, rule)
     if not pushes_all:
         ok = False
         ctx.bad(rule, nq, 'not every child returned by find_children is pushed',
                 'PcfgQueue.next must push all approved children unconditionally', None, nfn)
     if ok:
         ctx.ok(rule, qual, 'every position offered, no early exit, approved child appended, next() pushes all', facts)
+
+
+def push_unconditional(ctx, rule):
+    """PcfgQueue.insert_queue pushes whatever it is given (it is also the restore callback)."""
+    q = PQ + 'insert_queue'
+    fn = ctx.fn(q)
+    body = [s for s in fn.body if not (isinstance(s, ast.Expr) and isinstance(s.value, ast.Constant))]
+    p = params(fn)[1]
+    good = len(body) == 1 and isinstance(body[0], ast.Expr) and isinstance(body[0].value, ast.Call) \
+        and call_name(body[0].value) == 'heapq.heappush' and U(body[0].value.args[1]) == 'QueueItem(%s)' % p
+    if good:
+        ctx.ok(rule, q, 'insert_queue pushes its argument unconditionally')
+    else:
+        ctx.bad(rule, q, 'insert_queue: ' + ' ; '.join(U(s)[:50] for s in body),
+                'every adopted child (and every restored candidate) must enter the queue; a filter here (e.g. a probability '
+                'floor that also catches probability 0.0) silently drops pre-terminals', None, fn)
 
 
 def r6_seeding(ctx, rule):
@@ -430,10 +447,15 @@ def r6_seeding(ctx, rule):
         ctx.ok(rule, qual, 'one start node per base structure with index 0 everywhere; all pushed on a new session')
 
 
+def _mask_insertion(ctx, rule):
+    from . import c03
+    return c03.r3_mask_insertion(ctx, rule)
+
+
 def rules(tier):
     return [('C02.R1', lambda c, r: r1_adoption_kernel(c, r)), ('C02.R2', r2_predecessor), ('C02.R3', r3_coparent_prob),
             ('C02.R4', r4_copy_before_mutate), ('C02.R5', r5_all_children_pushed), ('C02.R6', r6_seeding),
-            ('C02.R7', c01.r3b_prob_pure), ('C02.R8', c01.r4_prob_pt_coupling), ('C02.R9', c01.r5_successor)]
+            ('C02.R7', c01.r3b_prob_pure), ('C02.R8', c01.r4_prob_pt_coupling), ('C02.R9', c01.r5_successor), ('C02.R10', _mask_insertion)]
 
 
 META = {
